@@ -163,10 +163,10 @@ class FnImp:
 
     def sg_of(self, e):
         """`self.subgraph` -> 'sg'; a local bound to a Subgraph -> its name; else None."""
-        if self.cls == "Subgraph" and isinstance(e, ast.Name) and e.id == "self":
+        if self.cls in ("Subgraph", "KNNSubgraph") and isinstance(e, ast.Name) and e.id == "self":
             return "sg"
         if isinstance(e, ast.Attribute) and isinstance(e.value, ast.Name) and e.value.id == "self" \
-                and e.attr == "subgraph" and self.cls != "Subgraph":
+                and e.attr == "subgraph" and self.cls not in ("Subgraph", "KNNSubgraph"):
             return "sg"
         if isinstance(e, ast.Name) and self.env.get(e.id) == SGT:
             return e.id
@@ -190,6 +190,22 @@ class FnImp:
             self.used_fields.append(f)
         return t
 
+    def float_const(self, v):
+        """a float literal other than 0: an opaque parameter standing for its encoding."""
+        if float(v) == 0.0:
+            return "(0 : Int)"
+        nm = "FC_" + repr(float(v)).replace(".", "_").replace("-", "m").replace("+", "")
+        if nm not in self.fconsts:
+            self.fconsts.append(nm)
+        return nm
+
+    def as_float(self, term, ty, node, src=None):
+        if ty == FLOAT:
+            return term
+        if ty == INT and isinstance(src, ast.Constant) and isinstance(src.value, int) and not isinstance(src.value, bool):
+            return self.float_const(float(src.value))      # an int literal stored where a float lives
+        self.fail(node, f"{ty} where a float is needed")
+
     def as_int(self, term, ty, node):
         if ty == INT:
             return term
@@ -206,6 +222,8 @@ class FnImp:
                 return ("true" if v else "false"), BOOL
             if isinstance(v, int):
                 return f"({v} : Int)", INT
+            if isinstance(v, float):
+                return self.float_const(v), FLOAT
             self.fail(e, f"constant {v!r}")
         if isinstance(e, ast.Name):
             if e.id not in env:
@@ -225,10 +243,10 @@ class FnImp:
                 return f"{s}.n_nodes", INT
             if s and e.attr == "trained":
                 return f"{s}.trained", BOOL
-            if s and self.sg_props is not None and self.sg_props.types.get(e.attr) == INT:
+            if s and self.sg_props is not None and self.sg_props.types.get(e.attr) in (INT, FLOAT):
                 if e.attr not in self.used_sg_fields:
                     self.used_sg_fields.append(e.attr)
-                return f"{s}.{e.attr}", INT
+                return f"{s}.{e.attr}", self.sg_props.types[e.attr]
             nr = self.node_ref(e.value)
             if nr:
                 s, ie = nr
@@ -258,6 +276,11 @@ class FnImp:
                 t = self.fresh()
                 lines.append(f"let {t} ← Py.idx {self.sg_of(v.value)}.idx_nodes {self.as_int(i, ti, e)}")
                 return t, INT
+            if isinstance(v, ast.Name) and env.get(v.id) in (LINT, LFLOAT):
+                i, ti = self.expr(e.slice, lines, in_branch)
+                t = self.fresh()
+                lines.append(f"let {t} ← Py.idx {v.id} {self.as_int(i, ti, e)}")
+                return t, (INT if env[v.id] == LINT else FLOAT)
             if isinstance(v, ast.Attribute) and isinstance(v.value, ast.Name) and env.get(v.value.id) == HEAP \
                     and self.heap.fields.get(v.attr) in (LINT, LFLOAT):
                 i, ti = self.expr(e.slice, lines, in_branch)
@@ -407,22 +430,22 @@ class FnImp:
         return False
 
     def weight_pattern(self, s):
-        """the two-branch arc-weight lookup -> (target name, kind, a, b) or None."""
-        if not (isinstance(s, ast.If) and ast.unparse(s.test) == "self.pre_computed_distance"):
+        """the two-branch arc-weight lookup -> (target expr, kind, a, b) or None."""
+        if not (isinstance(s, ast.If) and ast.unparse(s.test) in ("self.pre_computed_distance", "pre_computed_distance")):
             return None
         if not (len(s.body) == 1 and len(s.orelse) == 1 and isinstance(s.body[0], ast.Assign)
                 and isinstance(s.orelse[0], ast.Assign)):
             self.fail(s, "arc-weight lookup is not a pair of single assignments")
         a1, a2 = s.body[0], s.orelse[0]
-        if not (len(a1.targets) == 1 and isinstance(a1.targets[0], ast.Name)
+        if not (len(a1.targets) == 1 and len(a2.targets) == 1 and isinstance(a1.targets[0], (ast.Name, ast.Subscript))
                 and ast.unparse(a1.targets[0]) == ast.unparse(a2.targets[0])):
             self.fail(s, "arc-weight lookup assigns different targets")
         v1, v2 = a1.value, a2.value
         ok1 = (isinstance(v1, ast.Subscript) and isinstance(v1.value, ast.Subscript)
-               and ast.unparse(v1.value.value) == "self.pre_distances"
+               and ast.unparse(v1.value.value) in ("self.pre_distances", "pre_distances")
                and isinstance(v1.value.slice, ast.Attribute) and v1.value.slice.attr == "idx"
                and isinstance(v1.slice, ast.Attribute) and v1.slice.attr == "idx")
-        ok2 = (isinstance(v2, ast.Call) and ast.unparse(v2.func) == "self.distance_fn" and len(v2.args) == 2
+        ok2 = (isinstance(v2, ast.Call) and ast.unparse(v2.func) in ("self.distance_fn", "distance_function") and len(v2.args) == 2
                and not v2.keywords and all(isinstance(a, ast.Attribute) and a.attr == "features" for a in v2.args))
         if not (ok1 and ok2):
             self.fail(s, "arc-weight lookup has an unexpected shape")
@@ -437,7 +460,7 @@ class FnImp:
         if ra[0] != "sg":
             self.fail(s, "first node of the arc-weight lookup is not a training node")
         kind = "W" if rb[0] == "sg" else "WQ"
-        return a1.targets[0].id, kind, ra[1], rb[1]
+        return a1.targets[0], kind, ra[1], rb[1]
 
     def assigned(self, stmts):
         out = []
@@ -453,7 +476,7 @@ class FnImp:
                     return self.sg_of(r)
                 r = r.value
             if isinstance(r, ast.Name):
-                if r.id == "self" and self.cls == "Subgraph":
+                if r.id == "self" and self.cls in ("Subgraph", "KNNSubgraph"):
                     return "sg"
                 return r.id
             return None
@@ -476,7 +499,7 @@ class FnImp:
                     if isinstance(f.value, ast.Name) and self.env_all.get(f.value.id) == HEAP \
                             and f.attr in self.heap.impure:
                         add(f.value.id)
-                    if f.attr in ("append", "insert"):
+                    if f.attr in ("append", "insert", "fill"):
                         r = root_of(f.value)
                         if r:
                             add(r)
@@ -511,6 +534,8 @@ class FnImp:
                 ft = self.field(target.attr, node)
                 if ft == INT:
                     val = self.as_int(val, tv, node)
+                elif ft == FLOAT:
+                    val = self.as_float(val, tv, node, getattr(node, "value", None))
                 elif tv != ft:
                     self.fail(node, f"store of {tv} into node field {target.attr} of type {ft}")
                 i, ti = self.expr(ie, lines)
@@ -522,6 +547,12 @@ class FnImp:
                 lines.append(f"let {s} := {{ {s} with {target.attr} := {t} }}")
                 return
             s = self.sg_of(target.value)
+            if s and self.sg_props is not None and self.sg_props.types.get(target.attr) == FLOAT:
+                val = self.as_float(val, tv, node, getattr(node, "value", None))
+                if target.attr not in self.used_sg_fields:
+                    self.used_sg_fields.append(target.attr)
+                lines.append(f"let {s} := {{ {s} with {target.attr} := {val} }}")
+                return
             if s and self.sg_props is not None and self.sg_props.types.get(target.attr) == INT:
                 val = self.as_int(val, tv, node)
                 if target.attr not in self.used_sg_fields:
@@ -536,6 +567,18 @@ class FnImp:
             if isinstance(target.value, ast.Name) and target.value.id == "self" and target.attr == "subgraph":
                 self.fail(node, "assignment to self.subgraph other than Subgraph(…)")
             self.fail(node, f"store to {ast.unparse(target)}")
+        if isinstance(target, ast.Subscript) and isinstance(target.value, ast.Name) \
+                and env.get(target.value.id) in (LINT, LFLOAT):
+            nm = target.value.id
+            if env[nm] == LINT:
+                val = self.as_int(val, tv, node)
+            else:
+                val = self.as_float(val, tv, node, getattr(node, "value", None))
+            i, ti = self.expr(target.slice, lines)
+            t = self.fresh()
+            lines.append(f"let {t} ← Py.setIdx {nm} {self.as_int(i, ti, node)} {val}")
+            lines.append(f"let {nm} := {t}")
+            return
         if isinstance(target, ast.Subscript):
             v = target.value
             if isinstance(v, ast.Attribute) and isinstance(v.value, ast.Name) and env.get(v.value.id) == HEAP \
@@ -584,10 +627,15 @@ class FnImp:
                 tgt, kind, ea, eb = wp
                 a, ta = self.expr(ea, lines)
                 b, tb = self.expr(eb, lines)
-                lines.append(f"let {tgt} ← {kind} {self.as_int(a, ta, s)} {self.as_int(b, tb, s)}")
-                env[tgt] = FLOAT
-                self.env_all[tgt] = FLOAT
                 self.uses.add(kind)
+                if isinstance(tgt, ast.Name):
+                    lines.append(f"let {tgt.id} ← {kind} {self.as_int(a, ta, s)} {self.as_int(b, tb, s)}")
+                    env[tgt.id] = FLOAT
+                    self.env_all[tgt.id] = FLOAT
+                else:
+                    t = self.fresh()
+                    lines.append(f"let {t} ← {kind} {self.as_int(a, ta, s)} {self.as_int(b, tb, s)}")
+                    self.store(tgt, t, FLOAT, lines, s)
                 continue
             if isinstance(s, ast.Expr) and isinstance(s.value, ast.Call):
                 f = s.value.func
@@ -617,6 +665,12 @@ class FnImp:
                     lines.append(f"let {t} ← Py.setIdx {sgn}.{fld} {self.as_int(i, ti, s)} (#[{self.as_int(v, tv, s)}] ++ {a})")
                     lines.append(f"let {sgn} := {{ {sgn} with {fld} := {t} }}")
                     continue
+                if isinstance(f, ast.Attribute) and f.attr == "fill" and isinstance(f.value, ast.Name) \
+                        and env.get(f.value.id) == LFLOAT and len(s.value.args) == 1:
+                    a, ta = self.expr(s.value.args[0], lines)
+                    a = self.as_float(a, ta, s, s.value.args[0])
+                    lines.append(f"let {f.value.id} : Array Int := Array.replicate {f.value.id}.size {a}")
+                    continue
                 if fs == "self._find_prototypes" and not s.value.args:
                     lines.append("let (sg, _) ← find_prototypes W FLOAT_MAX sg")
                     self.uses.add("W")
@@ -630,8 +684,21 @@ class FnImp:
                 self.expr(s.value, lines)
                 continue
             if isinstance(s, ast.Assign):
-                if len(s.targets) != 1 or isinstance(s.targets[0], ast.Tuple):
-                    self.fail(s, "chained/tuple assignment")
+                if len(s.targets) != 1:
+                    self.fail(s, "chained assignment")
+                if isinstance(s.targets[0], ast.Tuple):
+                    tgt = s.targets[0]
+                    if not (isinstance(s.value, ast.Tuple) and len(s.value.elts) == len(tgt.elts)):
+                        self.fail(s, "tuple assignment from a non-tuple")
+                    vals = []
+                    for ve in s.value.elts:
+                        v, tv = self.expr(ve, lines)
+                        t = self.fresh()
+                        lines.append(f"let {t} := {v}")
+                        vals.append((t, tv))
+                    for u, (v, tv) in zip(tgt.elts, vals):
+                        self.store(u, v, tv, lines, s)
+                    continue
                 tg = s.targets[0]
                 if isinstance(tg, ast.Attribute) and ast.unparse(tg) == "self.subgraph":
                     if isinstance(s.value, ast.Call) and ast.unparse(s.value.func) == "Subgraph":
@@ -639,6 +706,15 @@ class FnImp:
                         self.uses.add("sg0")
                         continue
                     self.fail(s, "assignment to self.subgraph other than Subgraph(…)")
+                if (isinstance(tg, ast.Attribute) and self.node_ref(tg.value) and self.nodes.types.get(tg.attr) == LINT
+                        and isinstance(s.value, ast.List) and not s.value.elts):
+                    sgn, ie = self.node_ref(tg.value)
+                    self.field(tg.attr, s)
+                    i, ti = self.expr(ie, lines)
+                    t = self.fresh()
+                    lines.append(f"let {t} ← Py.setIdx {sgn}.{tg.attr} {self.as_int(i, ti, s)} (#[] : Array Int)")
+                    lines.append(f"let {sgn} := {{ {sgn} with {tg.attr} := {t} }}")
+                    continue
                 if isinstance(tg, ast.Name) and isinstance(s.value, ast.Call) and ast.unparse(s.value.func) == "Subgraph":
                     nm = tg.id + "0"
                     lines.append(f"let {tg.id} := {nm}")
@@ -661,6 +737,16 @@ class FnImp:
                         self.env_all[tg.id] = LINT
                         continue
                     self.fail(s, "list comprehension")
+                if (isinstance(tg, ast.Name) and isinstance(s.value, ast.Call) and ast.unparse(s.value.func) == "np.zeros"
+                        and len(s.value.args) == 1 and not s.value.keywords):
+                    ty_ = self.local_arrays.get(tg.id)
+                    if ty_ not in (LINT, LFLOAT):
+                        self.fail(s, f"np.zeros bound to {tg.id}: element type not declared to the translator")
+                    a, ta = self.expr(s.value.args[0], lines)
+                    lines.append(f"let {tg.id} : Array Int := Py.replicate {self.as_int(a, ta, s)} (0 : Int)")
+                    env[tg.id] = ty_
+                    self.env_all[tg.id] = ty_
+                    continue
                 if isinstance(s.value, ast.List) and not s.value.elts and isinstance(tg, ast.Name):
                     lines.append(f"let {tg.id} : Array Int := #[]")
                     env[tg.id] = LINT
@@ -826,6 +912,32 @@ class FnImp:
                                        f"let {it_} := {it_} + 1"] + bl + [f"pure {pat}))"], 4))
                 lines.append(f"  {self.tuple_of(w + ['(0 : Int)'])}")
                 continue
+            if (isinstance(s, ast.For) and isinstance(s.iter, ast.Call) and ast.unparse(s.iter.func) == "range"
+                    and len(s.iter.args) == 3 and ast.unparse(s.iter.args[2]) == "-1" and isinstance(s.target, ast.Name)
+                    and not s.orelse and not Imp.has_exit(s.body)):
+                # for v in range(start, stop, -1)
+                a0, t0 = self.expr(s.iter.args[0], lines)
+                a1_, t1 = self.expr(s.iter.args[1], lines)
+                v = s.target.id
+                w = [x for x in self.assigned(s.body) if x in env and x != v]
+                if not w:
+                    self.fail(s, "for loop that assigns nothing")
+                pat = self.tuple_of(w)
+                saved = dict(env)
+                self.env = dict(saved)
+                self.env[v] = INT
+                self.env_all[v] = INT
+                bl = self.block(s.body, ("yield",))
+                for x in w:
+                    if self.env[x] != saved[x]:
+                        self.fail(s, f"loop variable {x} changes type")
+                self.env = env = saved
+                env.pop(v, None)
+                lines.append(f"let {pat} ← Py.forDown (σ := {self.sigma(w)}) {self.as_int(a0, t0, s)} {self.as_int(a1_, t1, s)}")
+                lines.append(f"  (fun {v} {pat} => (do")
+                lines.extend(self.ind(bl + [f"pure {pat}))"], 4))
+                lines.append(f"  {pat}")
+                continue
             if isinstance(s, ast.For):
                 it = s.iter
                 if not (isinstance(s.target, ast.Name) and isinstance(it, ast.Call) and ast.unparse(it.func) == "range"
@@ -856,7 +968,7 @@ class FnImp:
         return lines
 
     # ---------------------------------------------------------------- functions
-    def function(self, relpath, clsname, fname, leanname, params):
+    def function(self, relpath, clsname, fname, leanname, params, local_arrays=None):
         """translate one method whose state is `sg` (+ locals). `params`: extra (name, type) int parameters."""
         self.rel = relpath
         self.cls = clsname
@@ -877,7 +989,7 @@ class FnImp:
             if a.arg in params:
                 self.env[a.arg] = params[a.arg]
                 self.env_all[a.arg] = params[a.arg]
-            elif a.arg != "self" and ast.unparse(a.annotation or ast.Constant(None)) in ("int", "bool") \
+            elif a.arg not in ("self", "pre_computed_distance") and ast.unparse(a.annotation or ast.Constant(None)) in ("int", "bool") \
                     and any(isinstance(n, ast.Name) and n.id == a.arg for n in ast.walk(fn)):
                 self.fail(fn, f"parameter {a.arg} is used but was not declared to the translator")
         # locals bound to Heap(...) are needed by `assigned` before they are reached
@@ -890,6 +1002,8 @@ class FnImp:
                     and isinstance(n.targets[0], ast.Name):
                 self.env_all[n.targets[0].id] = SGT
         self.extra_sg = []
+        self.fconsts = []
+        self.local_arrays = dict(local_arrays or {})
         self.ret_val, self.ret_ty = None, None
         sgt = ast.parse(open(os.path.join(self.repo, "opfython/core/subgraph.py")).read())
         self.subgraph_has_truth = any(isinstance(m, ast.FunctionDef) and m.name in ("__bool__", "__len__")
@@ -927,6 +1041,8 @@ class FnImp:
             sig.append("(WQ : Int → Int → Option Int)")
         if "FLOAT_MAX" in self.uses:
             sig.append("(FLOAT_MAX : Int)")
+        for nm in self.fconsts:
+            sig.append(f"({nm} : Int)")
         sig.append(f"(sg0 : {self.struct})" if "sg0" in self.uses else f"(sg : {self.struct})")
         for nm in self.extra_sg:
             sig.append(f"({nm} : {self.struct})")
@@ -1026,6 +1142,37 @@ def translate_cluster(repo, gen, consts, write):
         body = ['theorem untranslatable : False := by', '  exact (show False from nomatch (⟨⟩ : Unit))  -- ' + str(ex)]
         err = str(ex)
     write(os.path.join(gen, "ClusImp.lean"), "\n".join(head + body + ["end Opf.Gen.ClusImp"]) + "\n")
+    return err
+
+
+def translate_arcs(repo, gen, consts, write):
+    head = ["/- GENERATED by tools/translate_fn.py from /repo/opfython/subgraphs/knn.py (`create_arcs`) and",
+            "   /repo/opfython/core/subgraph.py (`destroy_arcs`) — do not edit. -/",
+            "import OpfVerif.Model.PyPrelude",
+            "set_option linter.unusedVariables false",
+            "namespace Opf.Gen.ArcsImp", "open Opf Opf.Gen", ""]
+    try:
+        heap = Imp(os.path.join(repo, "opfython/core/heap.py"), "Heap", consts, rel="opfython/core/heap.py")
+        t = FnImp(repo, consts, heap, NodeFields(repo, consts))
+        t.struct = "ASG"
+        t.sg_props = NodeFields(repo, consts, rel="opfython/subgraphs/knn.py", clsname="KNNSubgraph")
+        t.used_fields = ["adjacency", "radius", "n_plateaus"]
+        t.used_sg_fields = ["density"]
+        t.fixed_fields = True
+        t.tmp = 3000
+        fns = t.function("opfython/subgraphs/knn.py", "KNNSubgraph", "create_arcs", "create_arcs", {"k": INT},
+                         local_arrays={"distances": LFLOAT, "neighbours_idx": LINT, "max_distances": LFLOAT})
+        t.tmp = 3100
+        fns += t.function("opfython/core/subgraph.py", "Subgraph", "destroy_arcs", "destroy_arcs", {})
+        st = ["/-- a `KNNSubgraph`, flattened to what `create_arcs` touches; `density` is the subgraph-level bound. -/",
+              "structure ASG where", "  n_nodes : Int", "  trained : Bool", "  idx_nodes : Array Int", "  density : Int",
+              "  adjacency : Array (Array Int)", "  radius : Array Int", "  n_plateaus : Array Int", "deriving Inhabited, Repr", ""]
+        body = st + fns
+        err = None
+    except Untranslatable as ex:
+        body = _stub(ex)
+        err = str(ex)
+    write(os.path.join(gen, "ArcsImp.lean"), "\n".join(head + body + ["end Opf.Gen.ArcsImp"]) + "\n")
     return err
 
 
